@@ -293,14 +293,14 @@ def wrappers_rule(ctx, d1):
                 okk, why = False, 'the outlets are not filled from the phase rows of one multi-stream (%s / %s)' % (st[o1], st[o2])
                 break
             R = m1.group(1)
-            rows = (m1.group(2), m2.group(2))
+            rows = tuple(re.sub(r'^\((.+)\)(\[\d+\])$', r'\1\2', x) for x in (m1.group(2), m2.group(2)))
             if rows[0] == rows[1]:
                 okk, why = False, 'both outlets receive the same phase row %s' % rows[0]
                 break
             if name == 'vle' and rows != ("'g'", "'l'"):
                 okk, why = False, 'vapour/liquid outlets receive rows %s' % (rows,)
                 break
-            if name == 'lle' and set(rows) not in ({"'l'", "'L'"}, {'(%s.phases)[0]' % R, '(%s.phases)[1]' % R}):
+            if name == 'lle' and set(rows) not in ({"'l'", "'L'"}, {'%s.phases[0]' % R, '%s.phases[1]' % R}):
                 okk, why = False, 'top/bottom outlets receive rows %s, not the two liquid phases' % (rows,)
                 break
             # R is a copy of the feed, or the given multi-stream after copy_like(feed)
